@@ -140,6 +140,11 @@ def build_case(data):
             'names': names, 'texts': texts}
 
 
+def fuzz_one(data):
+    case = build_case(bytes(data).ljust(96, b'\0')[:96])
+    return check_case(case), case
+
+
 def _hyp(ctx, shard, n_examples):
     def factory():
         @seed(runner.hseed(ctx, 13))
@@ -198,6 +203,9 @@ def _shard(ctx, shard, nshards):
     for system in ('en', 'ja'):
         _sweep(ctx, shard, nshards, system, 1)
     _hyp(ctx, shard, ctx.scale(6000, 20000))
+    if shard == 1 and not ctx.quick:
+        from vlib import fuzz
+        fuzz.campaign(ctx, 'c13', 150000)
 
 
 def run(ctx):
